@@ -420,6 +420,16 @@ func (ex *Exec) parseNum(kind string, s Str, w int) (*Term, *Term) {
 	return ufOnStr("parse_"+kind+strconv.Itoa(w)+"_val", KBV, w, s), okT
 }
 
+// plainError builds an *errors.errorString value carrying msg.
+func (ex *Exec) plainError(msg string) Value {
+	ep := ex.prog.ImportedPackage("errors")
+	if ep == nil {
+		return Iface{t: types.Typ[types.String], v: mkStr(msg)}
+	}
+	var v Value = Struct{mkStr(msg)}
+	return Iface{t: types.NewPointer(ep.Type("errorString").Type()), v: &v}
+}
+
 var numErrorType types.Type
 
 func (ex *Exec) strconvErr(fr *frame, fn *ssa.Function, what string, in Str) Value {
@@ -714,14 +724,14 @@ func init() {
 				if ex.decide(okT) {
 					return Tuple{ex.nativePtr(Native{&symRegexp{pat: args[0].(Str)}}), Iface{}}
 				}
-				return Tuple{(*Value)(nil), Iface{t: types.Typ[types.String], v: mkStr("regexp syntax error")}}
+				return Tuple{(*Value)(nil), ex.plainError("regexp syntax error")}
 			}
 			re, err := regexp.Compile(p)
 			if err != nil {
 				if must {
 					ex.goPanic("regexp: Compile(" + strconv.Quote(p) + "): " + err.Error())
 				}
-				return Tuple{(*Value)(nil), Iface{t: types.Typ[types.String], v: mkStr(err.Error())}}
+				return Tuple{(*Value)(nil), ex.plainError(err.Error())}
 			}
 			v := ex.nativePtr(Native{&nativeRegexp{re: re, src: p}})
 			if must {
@@ -739,7 +749,7 @@ func init() {
 		}
 		re, err := regexp.Compile(p)
 		if err != nil {
-			return Tuple{tFalse, Iface{t: types.Typ[types.String], v: mkStr(err.Error())}}
+			return Tuple{tFalse, ex.plainError(err.Error())}
 		}
 		return Tuple{ex.regexpMatch(&nativeRegexp{re, p}, args[1].(Str)), Iface{}}
 	})
